@@ -440,7 +440,7 @@ func validateTrace(r *Reporter, path string, lines int) map[int]map[string]int {
 func init() {
 	register("C06", func(r *Reporter) {
 		r.Level = "model_checking"
-		r.Cov["rule"] = "(1) TLC checks the C06 clauses (spec/MSIProps.tla) exhaustively on the design model spec/MSI.tla for 2 cores x 2 lines and 3 cores x 1 line (all interleavings of up to MaxOps requests per core), with deadlock-freedom, completion under fairness and the action property LegalSteps (protocol state rises only for a core with a request in progress, falls only through a snoop command; presence and lock counters change accordingly); (2) the verif rig drives the real cache controllers of MVP-7.0/7.1/8 with request schedules (all pairs R/W x same/different line x same/different core at every offset of a grid (thorough: every offset 0..700), triples on a boundary grid, 17-line eviction warm-ups, a flush injected at every grid point of a miss) and full CPU runs of the MemDep/Tail/General families on 1..4 cores export one snapshot per cycle; TLC (spec/MSITrace.tla) evaluates every clause on every logged implementation state and LegalStep on every pair of consecutive logged states. Distinct = schedules / (program, cores) pairs; non-trivial = at least two requests"
+		r.Cov["rule"] = "(1) TLC checks the C06 clauses (spec/MSIProps.tla) exhaustively on the design model spec/MSI.tla for 2 cores x 2 lines and 3 cores x 1 line (all interleavings of up to MaxOps requests per core), with deadlock-freedom, completion under fairness and the action property LegalSteps (protocol state rises only for a core with a request in progress, falls only through a snoop command; presence and lock counters change accordingly); (2) the verif rig drives the real cache controllers of MVP-7.0/7.1/8 with request schedules (all pairs R/W x same/different line x same/different core at every offset of a grid (thorough: every offset near the latency boundaries and every second offset of 0..700), triples on a boundary grid, 17-line eviction warm-ups, a flush injected at every grid point of a miss) and full CPU runs of the MemDep/Tail/General families on 1..4 cores export one snapshot per cycle; TLC (spec/MSITrace.tla) evaluates every clause on every logged implementation state and LegalStep on every pair of consecutive logged states. Distinct = schedules / (program, cores) pairs; non-trivial = at least two requests"
 		r.Assumptions = []string{"hash equality stands for byte identity", "latencies are compile-time constants of the code, so the rig explores timing offsets, not arbitrary interleavings of coroutine steps", "consecutive identical snapshots are logged once"}
 		// ---- (1) design level
 		type dcfg struct {
